@@ -14,7 +14,8 @@
 -- Taken as hypotheses (they belong to property C07): primality of the three moduli (`Fact (Nat.Prime M)`), and that
 -- the raw-word operations of each base field implement `ZMod M` (the theorems below are about `ZMod M`; the
 -- generated formulas are polymorphic in the operation record and the driver runs them on the raw-word operations).
-import WinterProofs.Lemmas.C08Field
+import WinterProofs.Lemmas.C08Transfer
+import WinterProofs.Lemmas.C08Bytes
 
 set_option linter.unusedSectionVars false
 set_option linter.unusedSimpArgs false
@@ -635,6 +636,269 @@ theorem cube_unflatten_none_iff (bs : List F) : Cube.unflatten bs = none ↔ bs.
     simp only [Cube.unflatten, Option.map_eq_none_iff, ih, List.length_cons]
     omega
 
+/-- `bytes_as_elements(elements_as_bytes(es))` gives back every raw word: the memory image (raw words, little
+    endian, `I.bytes` bytes each) of `cs.length / n` elements of degree `n` reinterpreted as words.
+    Hypotheses: every raw word fits its `I.bytes` bytes (`u64` / `u128`). -/
+theorem bytes_reinterpretation_roundtrip (I : FieldImpl) (hI : 0 < I.bytes) (n : Nat) (cs : List Nat)
+    (hlen : cs.length % n = 0) (hcs : ∀ c ∈ cs, c < 256 ^ I.bytes) :
+    ExtBytes.bytesAsWords I n (ExtBytes.asBytes I cs) = some cs := by
+  unfold ExtBytes.bytesAsWords
+  have hl := asBytes_length I cs
+  obtain ⟨q, hq⟩ := Nat.dvd_of_mod_eq_zero hlen
+  have hmod : (ExtBytes.asBytes I cs).length % (n * I.bytes) = 0 := by
+    rw [hl, hq, Nat.mul_assoc, Nat.mul_comm q, ← Nat.mul_assoc]
+    exact Nat.mul_mod_right _ _
+  simp only [hmod, ne_eq, not_true_eq_false, if_false]
+  exact words_flatMap I.bytes hI cs hcs _ (Nat.le_refl _)
+
+example : (0 : Nat) < F64.impl.bytes ∧ (0 : Nat) < F62.impl.bytes ∧ (0 : Nat) < F128.impl.bytes := by decide
+
+/-- `read_from(write_into(x)) = x` and `try_from(to_bytes(x)) = x` for extension elements (lists of `n`
+    coordinates), given the same for the base field (hypothesis `hbase`, property C07): the result is the element
+    of the canonical representatives, the rest of the input is untouched -/
+theorem serialization_roundtrip (I : FieldImpl) (ok : Nat → Prop) (canon : Nat → Nat)
+    (hbase : ∀ c rest, ok c → I.readFrom (I.toBytes c ++ rest) = some (.ok (canon c), rest))
+    (cs : List Nat) (hok : ∀ c ∈ cs, ok c) :
+    (∀ rest, ExtBytes.readFrom I cs.length (ExtBytes.toBytes I cs ++ rest) = .ok (cs.map canon) rest) ∧
+    ExtBytes.tryFromBytes I cs.length (ExtBytes.toBytes I cs) = some (cs.map canon) := by
+  refine ⟨readFrom_toBytes I ok canon hbase cs hok, ?_⟩
+  have h := readFrom_toBytes I ok canon hbase cs hok []
+  rw [List.append_nil] at h
+  simp [ExtBytes.tryFromBytes, toBytes_length, h]
+
 end Flatten
+
+-- ================================================================================================
+-- 6. From `ZMod p` to the raw words the code computes on.  Hypothesis `Implements I p ok val` is the content of
+--    property C07 (on raw words satisfying the representation invariant `ok`, the base-field implementation `I`
+--    computes in `ZMod p` through `val`); `mk` is one of `Ext2.f64`, `Ext2.f62`, `Ext2.f128` (resp. `Ext3.f64`,
+--    `Ext3.f62`), whose naturality `hmk` is `f64_ext2_hom` etc.  Conclusion: on invariant-satisfying coordinates the
+--    model instantiated with the raw-word operations — i.e. what the driver executes and the harness compares
+--    bit-for-bit with the Rust code — preserves the invariant and commutes with `val`.
+-- ================================================================================================
+section Refinement
+variable {I : FieldImpl} {p : ℕ} [Fact p.Prime] {ok : ℕ → Prop} {val : ℕ → ZMod p}
+
+theorem quad_raw_refines (H : Implements I p ok val) (mk : ∀ {F : Type}, Gen.FOps F → Ext2 F)
+    (hmk : ∀ {F G : Type} {O : Gen.FOps F} {O' : Gen.FOps G} {h : F → G}, FHom O O' h → Ext2Hom (mk O) (mk O') h)
+    (a b : Quad ℕ) (c : ℕ) (ha : okQ ok a) (hb : okQ ok b) (hc : ok c) :
+    (okQ ok (Quad.mul (mk (BOps.ofImpl I).toFOps) a b) ∧
+      Quad.map val (Quad.mul (mk (BOps.ofImpl I).toFOps) a b) =
+        Quad.mul (mk (ringOps (ZMod p))) (Quad.map val a) (Quad.map val b)) ∧
+    (okQ ok (Quad.square (mk (BOps.ofImpl I).toFOps) a) ∧
+      Quad.map val (Quad.square (mk (BOps.ofImpl I).toFOps) a) =
+        Quad.square (mk (ringOps (ZMod p))) (Quad.map val a)) ∧
+    (okQ ok (Quad.mulBase (mk (BOps.ofImpl I).toFOps) a c) ∧
+      Quad.map val (Quad.mulBase (mk (BOps.ofImpl I).toFOps) a c) =
+        Quad.mulBase (mk (ringOps (ZMod p))) (Quad.map val a) (val c)) ∧
+    (okQ ok (Quad.conjugate (mk (BOps.ofImpl I).toFOps) a) ∧
+      Quad.map val (Quad.conjugate (mk (BOps.ofImpl I).toFOps) a) =
+        Quad.conjugate (mk (ringOps (ZMod p))) (Quad.map val a)) ∧
+    (okQ ok (Quad.add (BOps.ofImpl I) a b) ∧
+      Quad.map val (Quad.add (BOps.ofImpl I) a b) = Quad.add (fieldBOps p) (Quad.map val a) (Quad.map val b)) ∧
+    (okQ ok (Quad.sub (BOps.ofImpl I) a b) ∧
+      Quad.map val (Quad.sub (BOps.ofImpl I) a b) = Quad.sub (fieldBOps p) (Quad.map val a) (Quad.map val b)) ∧
+    (okQ ok (Quad.neg (BOps.ofImpl I) a) ∧
+      Quad.map val (Quad.neg (BOps.ofImpl I) a) = Quad.neg (fieldBOps p) (Quad.map val a)) ∧
+    (okQ ok (Quad.double (BOps.ofImpl I) a) ∧
+      Quad.map val (Quad.double (BOps.ofImpl I) a) = Quad.double (fieldBOps p) (Quad.map val a)) ∧
+    ((∀ y, Quad.inv (BOps.ofImpl I) (mk (BOps.ofImpl I).toFOps) a = .ok y → okQ ok y) ∧
+      Res.map (Quad.map val) (Quad.inv (BOps.ofImpl I) (mk (BOps.ofImpl I).toFOps) a) =
+        Quad.inv (fieldBOps p) (mk (ringOps (ZMod p))) (Quad.map val a)) := by
+  have HR := subOps_raw H
+  have HF := subOps_field H
+  have XR : Ext2Hom (mk (subOps H).toFOps) (mk (BOps.ofImpl I).toFOps) Subtype.val := hmk HR.ops
+  have XF : Ext2Hom (mk (subOps H).toFOps) (mk (ringOps (ZMod p))) (fun a : {x : ℕ // ok x} => val a.1) :=
+    hmk HF.ops
+  refine ⟨?_, ?_, ?_, ?_, ?_, ?_, ?_, ?_, ?_⟩
+  · exact quad_lift1 (opS := fun x => Quad.mul (mk (subOps H).toFOps) x (liftQ b hb))
+      (opR := fun x => Quad.mul _ x b) (opF := fun x => Quad.mul _ x (Quad.map val b))
+      (fun x => Quad.map_mul XR x _) (fun x => Quad.map_mul XF x _) a ha
+  · exact quad_lift1 (fun x => Quad.map_square XR x) (fun x => Quad.map_square XF x) a ha
+  · exact quad_lift1 (opS := fun x => Quad.mulBase (mk (subOps H).toFOps) x ⟨c, hc⟩)
+      (opR := fun x => Quad.mulBase _ x c) (opF := fun x => Quad.mulBase _ x (val c))
+      (fun x => Quad.map_mulBase XR x _) (fun x => Quad.map_mulBase XF x _) a ha
+  · exact quad_lift1 (fun x => Quad.map_conjugate XR x) (fun x => Quad.map_conjugate XF x) a ha
+  · exact quad_lift1 (opS := fun x => Quad.add (subOps H) x (liftQ b hb))
+      (opR := fun x => Quad.add _ x b) (opF := fun x => Quad.add _ x (Quad.map val b))
+      (fun x => Quad.map_add HR x _) (fun x => Quad.map_add HF x _) a ha
+  · exact quad_lift1 (opS := fun x => Quad.sub (subOps H) x (liftQ b hb))
+      (opR := fun x => Quad.sub _ x b) (opF := fun x => Quad.sub _ x (Quad.map val b))
+      (fun x => Quad.map_sub HR x _) (fun x => Quad.map_sub HF x _) a ha
+  · exact quad_lift1 (fun x => Quad.map_neg HR x) (fun x => Quad.map_neg HF x) a ha
+  · exact quad_lift1 (fun x => Quad.map_double HR x) (fun x => Quad.map_double HF x) a ha
+  · exact quad_lift_inv H XR XF a ha
+
+example {F G : Type} {O : Gen.FOps F} {O' : Gen.FOps G} {h : F → G} (H : FHom O O' h) :
+    Ext2Hom (Ext2.f64 O) (Ext2.f64 O') h := f64_ext2_hom H
+
+theorem cube_raw_refines (H : Implements I p ok val) (mk : ∀ {F : Type}, Gen.FOps F → Ext3 F)
+    (hmk : ∀ {F G : Type} {O : Gen.FOps F} {O' : Gen.FOps G} {h : F → G}, FHom O O' h → Ext3Hom (mk O) (mk O') h)
+    (a b : Cube ℕ) (c : ℕ) (ha : okC ok a) (hb : okC ok b) (hc : ok c) :
+    (okC ok (Cube.mul (mk (BOps.ofImpl I).toFOps) a b) ∧
+      Cube.map val (Cube.mul (mk (BOps.ofImpl I).toFOps) a b) =
+        Cube.mul (mk (ringOps (ZMod p))) (Cube.map val a) (Cube.map val b)) ∧
+    (okC ok (Cube.square (mk (BOps.ofImpl I).toFOps) a) ∧
+      Cube.map val (Cube.square (mk (BOps.ofImpl I).toFOps) a) =
+        Cube.square (mk (ringOps (ZMod p))) (Cube.map val a)) ∧
+    (okC ok (Cube.mulBase (mk (BOps.ofImpl I).toFOps) a c) ∧
+      Cube.map val (Cube.mulBase (mk (BOps.ofImpl I).toFOps) a c) =
+        Cube.mulBase (mk (ringOps (ZMod p))) (Cube.map val a) (val c)) ∧
+    (okC ok (Cube.conjugate (mk (BOps.ofImpl I).toFOps) a) ∧
+      Cube.map val (Cube.conjugate (mk (BOps.ofImpl I).toFOps) a) =
+        Cube.conjugate (mk (ringOps (ZMod p))) (Cube.map val a)) ∧
+    (okC ok (Cube.add (BOps.ofImpl I) a b) ∧
+      Cube.map val (Cube.add (BOps.ofImpl I) a b) = Cube.add (fieldBOps p) (Cube.map val a) (Cube.map val b)) ∧
+    (okC ok (Cube.sub (BOps.ofImpl I) a b) ∧
+      Cube.map val (Cube.sub (BOps.ofImpl I) a b) = Cube.sub (fieldBOps p) (Cube.map val a) (Cube.map val b)) ∧
+    (okC ok (Cube.neg (BOps.ofImpl I) a) ∧
+      Cube.map val (Cube.neg (BOps.ofImpl I) a) = Cube.neg (fieldBOps p) (Cube.map val a)) ∧
+    (okC ok (Cube.double (BOps.ofImpl I) a) ∧
+      Cube.map val (Cube.double (BOps.ofImpl I) a) = Cube.double (fieldBOps p) (Cube.map val a)) ∧
+    ((∀ y, Cube.inv (BOps.ofImpl I) (mk (BOps.ofImpl I).toFOps) a = .ok y → okC ok y) ∧
+      Res.map (Cube.map val) (Cube.inv (BOps.ofImpl I) (mk (BOps.ofImpl I).toFOps) a) =
+        Cube.inv (fieldBOps p) (mk (ringOps (ZMod p))) (Cube.map val a)) := by
+  have HR := subOps_raw H
+  have HF := subOps_field H
+  have XR : Ext3Hom (mk (subOps H).toFOps) (mk (BOps.ofImpl I).toFOps) Subtype.val := hmk HR.ops
+  have XF : Ext3Hom (mk (subOps H).toFOps) (mk (ringOps (ZMod p))) (fun a : {x : ℕ // ok x} => val a.1) :=
+    hmk HF.ops
+  refine ⟨?_, ?_, ?_, ?_, ?_, ?_, ?_, ?_, ?_⟩
+  · exact cube_lift1 (opS := fun x => Cube.mul (mk (subOps H).toFOps) x (liftC b hb))
+      (opR := fun x => Cube.mul _ x b) (opF := fun x => Cube.mul _ x (Cube.map val b))
+      (fun x => Cube.map_mul XR x _) (fun x => Cube.map_mul XF x _) a ha
+  · exact cube_lift1 (fun x => Cube.map_square XR x) (fun x => Cube.map_square XF x) a ha
+  · exact cube_lift1 (opS := fun x => Cube.mulBase (mk (subOps H).toFOps) x ⟨c, hc⟩)
+      (opR := fun x => Cube.mulBase _ x c) (opF := fun x => Cube.mulBase _ x (val c))
+      (fun x => Cube.map_mulBase XR x _) (fun x => Cube.map_mulBase XF x _) a ha
+  · exact cube_lift1 (fun x => Cube.map_conjugate XR x) (fun x => Cube.map_conjugate XF x) a ha
+  · exact cube_lift1 (opS := fun x => Cube.add (subOps H) x (liftC b hb))
+      (opR := fun x => Cube.add _ x b) (opF := fun x => Cube.add _ x (Cube.map val b))
+      (fun x => Cube.map_add HR x _) (fun x => Cube.map_add HF x _) a ha
+  · exact cube_lift1 (opS := fun x => Cube.sub (subOps H) x (liftC b hb))
+      (opR := fun x => Cube.sub _ x b) (opF := fun x => Cube.sub _ x (Cube.map val b))
+      (fun x => Cube.map_sub HR x _) (fun x => Cube.map_sub HF x _) a ha
+  · exact cube_lift1 (fun x => Cube.map_neg HR x) (fun x => Cube.map_neg HF x) a ha
+  · exact cube_lift1 (fun x => Cube.map_double HR x) (fun x => Cube.map_double HF x) a ha
+  · exact cube_lift_inv H XR XF a ha
+
+example {F G : Type} {O : Gen.FOps F} {O' : Gen.FOps G} {h : F → G} (H : FHom O O' h) :
+    Ext3Hom (Ext3.f62 O) (Ext3.f62 O') h := f62_ext3_hom H
+
+theorem Res.map_eq_ok {α β : Type} {f : α → β} {r : Res α} {y' : β} (h : Res.map f r = .ok y') :
+    ∃ y, r = .ok y ∧ f y = y' := by
+  cases r with
+  | ok y => exact ⟨y, rfl, by simpa [Res.map] using h⟩
+  | panic => simp [Res.map] at h
+  | hang => simp [Res.map] at h
+
+/-- quadratic, on raw words: on invariant-satisfying coordinates `inv` returns (no panic, no hang) an
+    invariant-satisfying element denoting the inverse (resp. zero for zero) -/
+theorem quad_raw_inverse (H : Implements I p ok val) (mk : ∀ {F : Type}, Gen.FOps F → Ext2 F)
+    (hmk : ∀ {F G : Type} {O : Gen.FOps F} {O' : Gen.FOps G} {h : F → G}, FHom O O' h → Ext2Hom (mk O) (mk O') h)
+    {s t : ZMod p} (hspec : Spec2 (mk (ringOps (ZMod p))) s t) (hs : s ≠ 0)
+    (hφ : (PQ2.φ : PQ2 (ZMod p) s t) ^ p = ⟨s, -1⟩) (a : Quad ℕ) (ha : okQ ok a) :
+    ∃ y, Quad.inv (BOps.ofImpl I) (mk (BOps.ofImpl I).toFOps) a = .ok y ∧ okQ ok y ∧
+      (Quad.map val a = ⟨0, 0⟩ → Quad.map val y = ⟨0, 0⟩) ∧
+      (Quad.map val a ≠ ⟨0, 0⟩ →
+        Quad.mul (mk (ringOps (ZMod p))) (Quad.map val a) (Quad.map val y) = Quad.one (fieldBOps p)) := by
+  obtain ⟨hok, hmap⟩ := (quad_raw_refines H mk hmk a a (I.new 0) ha ha (H.new 0).1 |>.2.2.2.2.2.2.2.2)
+  have hinv := quad_inverse hspec hs hφ (Quad.map val a)
+  by_cases hz : Quad.map val a = ⟨0, 0⟩
+  · rw [hinv.1 hz] at hmap
+    obtain ⟨y, hy, hvy⟩ := Res.map_eq_ok hmap
+    exact ⟨y, hy, hok y hy, fun _ => hvy, fun h => absurd hz h⟩
+  · obtain ⟨y', hy', hone⟩ := hinv.2 hz
+    rw [hy'] at hmap
+    obtain ⟨y, hy, hvy⟩ := Res.map_eq_ok hmap
+    exact ⟨y, hy, hok y hy, fun h => absurd h hz, fun _ => by rw [hvy]; exact hone⟩
+
+/-- cubic, on raw words -/
+theorem cube_raw_inverse (H : Implements I p ok val) (mk : ∀ {F : Type}, Gen.FOps F → Ext3 F)
+    (hmk : ∀ {F G : Type} {O : Gen.FOps F} {O' : Gen.FOps G} {h : F → G}, FHom O O' h → Ext3Hom (mk O) (mk O') h)
+    {s t : ZMod p} {k : FrobK (ZMod p)} (hspec : Spec3 (mk (ringOps (ZMod p))) s t k) (HK : Frob3 s t k)
+    (a : Cube ℕ) (ha : okC ok a) :
+    ∃ y, Cube.inv (BOps.ofImpl I) (mk (BOps.ofImpl I).toFOps) a = .ok y ∧ okC ok y ∧
+      (Cube.map val a = ⟨0, 0, 0⟩ → Cube.map val y = ⟨0, 0, 0⟩) ∧
+      (Cube.map val a ≠ ⟨0, 0, 0⟩ →
+        Cube.mul (mk (ringOps (ZMod p))) (Cube.map val a) (Cube.map val y) = Cube.one (fieldBOps p)) := by
+  obtain ⟨hok, hmap⟩ := (cube_raw_refines H mk hmk a a (I.new 0) ha ha (H.new 0).1 |>.2.2.2.2.2.2.2.2)
+  have hinv := cube_inverse hspec HK (Cube.map val a)
+  by_cases hz : Cube.map val a = ⟨0, 0, 0⟩
+  · rw [hinv.1 hz] at hmap
+    obtain ⟨y, hy, hvy⟩ := Res.map_eq_ok hmap
+    exact ⟨y, hy, hok y hy, fun _ => hvy, fun h => absurd hz h⟩
+  · obtain ⟨y', hy', hone⟩ := hinv.2 hz
+    rw [hy'] at hmap
+    obtain ⟨y, hy, hvy⟩ := Res.map_eq_ok hmap
+    exact ⟨y, hy, hok y hy, fun h => absurd h hz, fun _ => by rw [hvy]; exact hone⟩
+
+end Refinement
+
+-- ------------------------------------------------------------------------------------------------
+-- The hypotheses used above are satisfiable (non-vacuity), shown on a toy prime; for the real moduli the only
+-- hypotheses left are `Fact (Nat.Prime M)` and `Implements` (both: property C07).
+section Examples
+local instance : Fact (Nat.Prime 7) := ⟨by decide⟩
+
+/-- a toy base-field implementation (canonical residues modulo 7) -/
+def toyImpl : FieldImpl where
+  name := "toy7"
+  M := 7
+  bytes := 1
+  wordBits := 8
+  new := fun n => n % 7
+  add := fun a b => (a + b) % 7
+  sub := fun a b => (a + (7 - b % 7)) % 7
+  mul := fun a b => (a * b) % 7
+  neg := fun a => (7 - a % 7) % 7
+  double := fun a => (2 * a) % 7
+  asInt := fun a => a % 7
+  eq := fun a b => a % 7 == b % 7
+  exp := fun a e => a ^ e % 7
+  inv := fun a => .done (a ^ 5 % 7)
+  twoAdicity := 1
+  twoAdicRoot := 6
+  generator := 3
+  inv? := fun r => decide (r < 7)
+
+example : Implements toyImpl 7 (· < 7) (fun n => (n : ZMod 7)) where
+  add := by intro a b ha hb; revert b; revert a; decide
+  sub := by intro a b ha hb; revert b; revert a; decide
+  mul := by intro a b ha hb; revert b; revert a; decide
+  neg := by intro a ha; revert a; decide
+  double := by intro a ha; revert a; decide
+  new := fun n => ⟨Nat.mod_lt _ (by decide), ZMod.natCast_mod n 7⟩
+  eq := by intro a b ha hb; revert b; revert a; decide
+  inv := by
+    intro a ha
+    refine ⟨a ^ 5 % 7, rfl, Nat.mod_lt _ (by decide), ?_⟩
+    have key : ∀ a < 7, ((a ^ 5 % 7 : ℕ) : ZMod 7) * (a : ZMod 7) = if a = 0 then 0 else 1 := by decide
+    rcases Nat.eq_zero_or_pos a with h0 | hpos
+    · subst h0; simp
+    · have := key a ha
+      rw [if_neg (by omega)] at this
+      exact eq_inv_of_mul_eq_one_left this
+
+example : ∃ (p : ℕ) (_ : Fact p.Prime) (s t : ZMod p) (X : Ext2 (ZMod p)),
+    Spec2 X s t ∧ s ≠ 0 ∧ (PQ2.φ : PQ2 (ZMod p) s t) ^ p = ⟨s, -1⟩ := by
+  refine ⟨7, inferInstance, 1, 1, Ext2.f62 (ringOps (ZMod 7)), ?_, by decide, ?_⟩
+  · exact q62_spec
+  · have hk : powN2 7 1 1 3 (1, 0) (0, 1) 7 = (1, 6) := by decide
+    rw [phi_pow_of_powN2 (p := 7) (s := 1) (t := 1) 1 1 (by simp) (by simp) 3 (by decide) 1 6 hk]
+    ext <;> simp; decide
+
+example [Fact (Nat.Prime Gen.F64.M)] : Frob3 (p := Gen.F64.M) 1 1 (k64 (ZMod Gen.F64.M)) := c64_frob3
+example [Fact (Nat.Prime Gen.F62.M)] : Frob3 (p := Gen.F62.M) (-2) (-2) (k62 (ZMod Gen.F62.M)) := c62_frob3
+
+/-- the base-field hypothesis of `serialization_roundtrip` on the toy implementation -/
+example : ∀ c rest, c < 7 → toyImpl.readFrom (toyImpl.toBytes c ++ rest) = some (.ok (c % 7), rest) := by
+  intro c rest hc
+  have h1 : c % 7 = c := Nat.mod_eq_of_lt hc
+  have h2 : c % 256 = c := Nat.mod_eq_of_lt (by omega)
+  have h3 : ¬ (7 ≤ c) := by omega
+  simp [FieldImpl.readFrom, FieldImpl.toBytes, toyImpl, leBytes, ofLeBytes, FieldImpl.tryFrom, h1, h2, h3]
+
+end Examples
 
 end WinterProofs.C08
